@@ -120,8 +120,25 @@ pub fn exec(sim: &mut Sim, ev: &str, a: &Value) -> Result<(), String> {
             }
             sim.start()
         }
-        "Prespawn" => sim.prespawn(s(a, "c"), s(a, "p")),
-        "KillPre" => sim.kill_prespawned(s(a, "c"), s(a, "p")),
+        "Prespawn" => {
+            let ci = sim.ci(s(a, "c"));
+            let connected = sim.clients[ci].entity.is_some();
+            if sim.clients[ci].prespawned.contains_key(s(a, "p")) || !connected {
+                return Err("Prespawn not enabled".into());
+            }
+            sim.prespawn(s(a, "c"), s(a, "p"))
+        }
+        "KillPre" => {
+            let ci = sim.ci(s(a, "c"));
+            let alive = sim.clients[ci].prespawned.get(s(a, "p")).is_some_and(|&e| sim.clients[ci].app.world().get_entity(e).is_ok());
+            let adopted = sim.clients[ci].prespawned.get(s(a, "p")).is_some_and(|e| {
+                sim.clients[ci].app.world().resource::<bevy_replicon::shared::server_entity_map::ServerEntityMap>().to_server().contains_key(e)
+            });
+            if !alive || adopted {
+                return Err("KillPre not enabled".into());
+            }
+            sim.kill_prespawned(s(a, "c"), s(a, "p"))
+        }
         "MapPre" => {
             if !sim.map_prespawned(s(a, "c"), s(a, "e"), s(a, "p")) {
                 return Err("MapPre not enabled".into());
@@ -245,6 +262,7 @@ pub struct Profile {
     pub sess: bool,
     pub marks: bool,
     pub events: bool,
+    pub pre: bool,
     pub settle: usize,
     /// avoid histories matching open known-finding signatures
     pub clean: bool,
@@ -252,7 +270,7 @@ pub struct Profile {
 
 impl Default for Profile {
     fn default() -> Self {
-        Self { steps: 40, comps: vec!["A", "B"], vis: false, rel: false, sess: false, marks: true, events: false, settle: 4, clean: true }
+        Self { steps: 40, comps: vec!["A", "B"], vis: false, rel: false, sess: false, marks: true, events: false, pre: false, settle: 4, clean: true }
     }
 }
 
@@ -308,6 +326,25 @@ pub fn random_run<W: Write>(tr: &mut Trace<W>, cfg: Cfg, prof: &Profile, seed: u
                     }
                 }
             }
+            continue;
+        }
+        if prof.pre && rng.chance(1, 5) {
+            // pre-spawned client entities and their mapping
+            let c = rng.pick(&clients).clone();
+            let p = format!("p{}", 1 + rng.below(2));
+            let e = rng.pick(&ents).clone();
+            match rng.below(10) {
+                0..=3 => tr.step(&mut sim, "Prespawn", json!({"c": c, "p": p})),
+                4..=7 => {
+                    // typical use: map, then spawn the server entity in the same or a later frame
+                    let ok = tr.step(&mut sim, "MapPre", json!({"c": c, "e": e, "p": p}));
+                    if ok && rng.chance(1, 2) {
+                        tr.step(&mut sim, "SrvFrame", json!({"tick": false, "dt": 0}));
+                    }
+                    ok
+                }
+                _ => tr.step(&mut sim, "KillPre", json!({"c": c, "p": p})),
+            };
             continue;
         }
         let e = rng.pick(&ents).clone();
